@@ -37,6 +37,8 @@ type c09chg struct {
 	readyT  time.Time
 	hasAttr bool
 	pending bool
+	hasAttr2 bool
+	pending2 bool
 }
 
 func Harness_C09_Prune() {
@@ -81,6 +83,12 @@ func Harness_C09_Prune() {
 				ci.c.data["pending-attr"] = &raw
 			}
 			ci.pending = zz.NondetBool(name + ".pending")
+			ci.hasAttr2 = zz.NondetBool(name + ".hasattr2")
+			if ci.hasAttr2 {
+				raw := json.RawMessage("true")
+				ci.c.data["pending-attr2"] = &raw
+			}
+			ci.pending2 = zz.NondetBool(name + ".pending2")
 		}
 		chgs = append(chgs, ci)
 	}
@@ -88,6 +96,14 @@ func Harness_C09_Prune() {
 		for _, ci := range chgs {
 			if ci.c == c {
 				return ci.pending
+			}
+		}
+		return false
+	})
+	st.RegisterPendingChangeByAttr("pending-attr2", func(c *Change) bool {
+		for _, ci := range chgs {
+			if ci.c == c {
+				return ci.pending2
 			}
 		}
 		return false
@@ -116,8 +132,18 @@ func Harness_C09_Prune() {
 		}
 		if ci.ready {
 			old := ci.readyT.Before(pruneLimit)
+			// rank among the ready changes inside the retention period, newest first
+			newerOrSame, strictlyNewer := 0, 0
+			for _, cj := range chgs {
+				if cj.ready {
+					inRet := zz.Not(cj.readyT.Before(pruneLimit))
+					newerOrSame += zz.IteInt(zz.And(inRet, zz.Not(cj.readyT.Before(ci.readyT))), 1, 0)
+					strictlyNewer += zz.IteInt(zz.And(inRet, ci.readyT.Before(cj.readyT)), 1, 0)
+				}
+			}
 			if removed {
 				zz.Assert(zz.Or(old, totalReady > maxReady), "C09/ready-removed-only-if-old-or-over-limit")
+				zz.Assert(zz.Or(old, newerOrSame > maxReady), "C09/recent-ready-removed-only-beyond-limit")
 				// oldest first: every strictly older ready change went too
 				for _, cj := range chgs {
 					if cj != ci && cj.ready {
@@ -127,6 +153,7 @@ func Harness_C09_Prune() {
 			} else {
 				remainingReady++
 				zz.Assert(zz.Not(old), "C09/old-ready-change-removed")
+				zz.Assert(strictlyNewer < maxReady, "C09/kept-ready-is-among-the-newest")
 			}
 			continue
 		}
@@ -148,7 +175,7 @@ func Harness_C09_Prune() {
 				aborted = true
 			}
 		}
-		wantAbort := zz.And(pastAbort, !(ci.hasAttr && ci.pending))
+		wantAbort := zz.And(pastAbort, !(ci.hasAttr && ci.pending) && !(ci.hasAttr2 && ci.pending2))
 		zz.Assert(aborted == wantAbort, "C09/aborted-iff-past-abort-period-and-not-pending")
 		if aborted {
 			for _, tid := range ci.taskIDs {
